@@ -298,6 +298,9 @@ namespace vf
             o.nontrivial = c.nontrivial;
             o.digest = fnv1a(b.data(), o.consumed);
             o.text = c.text;
+            // generator health: a case whose decoding ran past its bytes got the smallest choice for everything after that point
+            if (o.st == OK)
+                c.cls[s.i > s.n ? "input:bytes-ran-out" : "input:bytes-sufficient"]++;
             o.cls = c.cls;
             o.knownHits = c.knownHits;
             o.maxStat = c.maxStat;
